@@ -149,6 +149,12 @@ Poll ==
          mind == CHOOSE d \in dls : \A e \in dls : TLeq(d, e)
      IN /\ TLeq(c0, c1) /\ TLeq(clock, c1)      \* (scheduled readiness changes applied while sleeping are logged before the poll event)
         /\ \A k \in 1..nreq : Ev.fds[k][1] \in FDS
+        \* implementation level (drift report only, comment block of events_network.c): the array given to poll
+        \* holds exactly one entry per descriptor with a registered direction, asking exactly the registered directions
+        /\ LET asked == {<<Ev.fds[k][1], Ev.fds[k][2]>> : k \in 1..nreq}
+               want == {fm \in FDS \X (1..3) : fm[2] = (IF slot[<<fm[1], "R">>] # 0 THEN 1 ELSE 0)
+                                                         + (IF slot[<<fm[1], "W">>] # 0 THEN 2 ELSE 0)}
+           IN IF asked = want /\ Cardinality(asked) = nreq THEN TRUE ELSE PrintT(<<"IMPLDRIFT", l>>)
         \* C05: never blocks past the earliest timer deadline, rounded up to a millisecond
         /\ (Timers # {}) => /\ Ev.timeout # -1
                             /\ (Ev.timeout > 0 => TLess(TAdd(c0, Ms(Ev.timeout)), TAdd(IF TLeq(mind, c0) THEN c0 ELSE mind, <<0, 1000>>)))
